@@ -59,7 +59,10 @@ def lean_obligations(res, pid, extra_targets=()):
     """lake build of the property module + axiom audit + forbidden-token grep.
     Returns True iff every proof obligation of `pid` is discharged."""
     mod = "Ekit.Props." + pid
-    rc, log = core.lake_build([mod] + list(extra_targets))
+    # companion modules of the property (e.g. Ekit/Props/C06HW.lean: the Herlihy–Wing forms) are obligations too
+    companions = sorted("Ekit.Props." + f[:-5] for f in os.listdir(os.path.join(core.LEAN, "Ekit", "Props"))
+                        if f.startswith(pid) and f.endswith(".lean") and f[:-5] != pid)
+    rc, log = core.lake_build([mod] + companions + list(extra_targets))
     # the driver executable contains the acceptors of ALL areas; if some OTHER property's regenerated
     # definitions broke its build, that is not this property's obligation: use the reference driver.
     drc, dlog = core.lake_build(["driver"])
@@ -101,14 +104,15 @@ class TraceCorr:
     """Correspondence of one harness with one driver area, on generated + corpus op sequences."""
 
     def __init__(self, work, res, pid, harness, area, tier, name=None, gen_args=(), run_args=(),
-                 env=None, race=False, timeout=1800):
+                 env=None, race=False, timeout=None):
         self.work, self.res, self.pid = work, res, pid
         self.harness, self.area, self.tier = harness, area, tier
         self.name = name or harness
         self.gen_args, self.run_args = list(gen_args), list(run_args)
         self.env = dict(core.GOENV, VERIF_SEED=str(res.seed), **(env or {}))
         self.race = race
-        self.timeout = timeout
+        # a wedged implementation must not stall a check for long: bound every harness/driver process
+        self.timeout = timeout or (600 if tier == "quick" else 3600)
         self.dir = os.path.join(work.dir, "corr-" + self.name)
         os.makedirs(self.dir, exist_ok=True)
 
